@@ -18,6 +18,7 @@ PROPS["C12"] = {
     "groups": [
         {"id": "views",
          "quick": ["c12::c12_sliceref_u8_4", "c12::c12_sliceref_u64_4", "c12::c12_sliceref_zst_4", "c12::c12_sliceref_t3_4",
+                   "c12::c12_slices_t3_any_address",
                    "c12::c12_slicemut_u8_4", "c12::c12_slicemut_u64_4", "c12::c12_slicemut_zst_4", "c12::c12_slicemut_t3_4",
                    "c12::c12_utf8_decision_4", "c12::c12_str_rt_4",
                    "c12::c12_coption_value", "c12::c12_coption_moves", "c12::c12_cresult_value", "c12::c12_cresult_moves",
